@@ -27,6 +27,9 @@ type frameComp struct{}
 type chunkReader struct {
 	chunks   [][]byte
 	consumed int
+	// eofWithLast: the read that hands out the last byte of the stream returns it together
+	// with io.EOF (n > 0, io.EOF) — what quic-go does when the FIN rides on the last frame
+	eofWithLast bool
 }
 
 func (c *chunkReader) Read(p []byte) (int, error) {
@@ -48,7 +51,19 @@ func (c *chunkReader) Read(p []byte) (int, error) {
 		c.chunks[0] = cur[n:]
 	}
 	c.consumed += n
+	if c.eofWithLast && c.drained() {
+		return n, io.EOF
+	}
 	return n, nil
+}
+
+func (c *chunkReader) drained() bool {
+	for _, x := range c.chunks {
+		if len(x) > 0 {
+			return false
+		}
+	}
+	return true
 }
 
 func (c *chunkReader) rest() []byte {
@@ -116,12 +131,15 @@ func (frameComp) Gen(r *vh.RNG, n int, emit func(op string, tags ...string)) {
 			b = append(b, varintW(legalW(r, uint64(pl)), uint64(pl))...)
 			b = append(b, r.Bytes(pl)...)
 			trail := r.Intn(24)
+			if r.Chance(1, 3) {
+				trail = 0 // the frame ends the stream
+			}
 			b = append(b, r.Bytes(trail)...)
 			op := "rdreq"
 			if framed {
 				op = "rdframed"
 			}
-			emit(fmt.Sprintf("%s %s exp=ok:%s:%d", op, vh.Chunks(r.Chunk(b)), vh.Hex(addr), trail), "req-valid")
+			emit(fmt.Sprintf("%s %s exp=ok:%s:%d eof=%d", op, vh.Chunks(r.Chunk(b)), vh.Hex(addr), trail, r.Intn(2)), "req-valid")
 		case k < 45: // valid response
 			ml := r.Pick(append([]int{0, 0}, addrLens...))
 			if r.Chance(1, 3) {
@@ -142,8 +160,11 @@ func (frameComp) Gen(r *vh.RNG, n int, emit func(op string, tags ...string)) {
 			b = append(b, varintW(legalW(r, uint64(pl)), uint64(pl))...)
 			b = append(b, r.Bytes(pl)...)
 			trail := r.Intn(24)
+			if r.Chance(1, 3) {
+				trail = 0 // the frame ends the stream (a dial-error response followed by Close)
+			}
 			b = append(b, r.Bytes(trail)...)
-			emit(fmt.Sprintf("rdresp %s exp=ok:%s:%d", vh.Chunks(r.Chunk(b)), vh.Hex(msg), trail), "resp-valid")
+			emit(fmt.Sprintf("rdresp %s exp=ok:%s:%d eof=%d", vh.Chunks(r.Chunk(b)), vh.Hex(msg), trail, r.Intn(2)), "resp-valid")
 		case k < 57: // over-limit declared lengths
 			var b []byte
 			op := "rdreq"
@@ -175,7 +196,7 @@ func (frameComp) Gen(r *vh.RNG, n int, emit func(op string, tags ...string)) {
 				b = append(b, varintW(legalW(r, v), v)...)
 				b = append(b, r.Bytes(r.Intn(40))...)
 			}
-			emit(op+" "+vh.Chunks(r.Chunk(b))+" exp=proto", "overlimit")
+			emit(fmt.Sprintf("%s %s exp=proto eof=%d", op, vh.Chunks(r.Chunk(b)), r.Intn(2)), "overlimit")
 		case k < 70: // truncation of a valid frame at a random offset
 			al := r.Pick([]int{1, 2, 63, 64, 100})
 			pl := r.Pick([]int{0, 1, 63, 64, 100})
@@ -190,7 +211,7 @@ func (frameComp) Gen(r *vh.RNG, n int, emit func(op string, tags ...string)) {
 			b = append(b, varintW(legalW(r, uint64(pl)), uint64(pl))...)
 			b = append(b, r.Bytes(pl)...)
 			b = b[:r.Intn(len(b)+1)]
-			emit(op+" "+vh.Chunks(r.Chunk(b)), "truncated")
+			emit(fmt.Sprintf("%s %s eof=%d", op, vh.Chunks(r.Chunk(b)), r.Intn(2)), "truncated")
 		case k < 78: // random bytes
 			b := r.Bytes(r.Intn(40))
 			op := []string{"rdreq", "rdresp", "rdframed"}[r.Intn(3)]
@@ -282,11 +303,23 @@ func bigFlag(n uint64) string {
 // expectation carried by generated ops (model-free: the generator knows what it built):
 //	exp=ok:<hex of address|message>:<trailing bytes>   a valid frame followed by a trailing payload
 //	exp=proto                                           an over-limit / empty declared length
+func fieldWith(f []string, prefix string) string {
+	for _, x := range f[2:] {
+		if strings.HasPrefix(x, prefix) {
+			return strings.TrimPrefix(x, prefix)
+		}
+	}
+	return ""
+}
+
 func checkExp(f []string, out string, total int) []string {
-	if len(f) < 3 || !strings.HasPrefix(f[2], "exp=") {
+	e := ""
+	if len(f) >= 3 {
+		e = fieldWith(f, "exp=")
+	}
+	if e == "" {
 		return nil
 	}
-	e := strings.TrimPrefix(f[2], "exp=")
 	if e == "proto" {
 		if !strings.HasPrefix(out, "proto ") {
 			return []string{"an over-limit or empty declared length was not rejected as a protocol error: " + out}
@@ -323,7 +356,7 @@ func checkExp(f []string, out string, total int) []string {
 func (c frameComp) Run(op string) vh.Result {
 	res := c.run(op)
 	f := strings.Fields(op)
-	if len(f) >= 3 && strings.HasPrefix(f[2], "exp=") {
+	if len(f) >= 3 && (f[0] == "rdreq" || f[0] == "rdframed" || f[0] == "rdresp") {
 		res.Oracle = append(res.Oracle, checkExp(f, res.Out, totalLen(vh.ParseChunks(f[1])))...)
 		if res.ModelOp == "" {
 			res.ModelOp = f[0] + " " + f[1]
@@ -340,7 +373,7 @@ func (frameComp) run(op string) vh.Result {
 		cs := vh.ParseChunks(f[1])
 		total := totalLen(cs)
 		flat := bytes.Join(cs, nil)
-		cr := &chunkReader{chunks: cs}
+		cr := &chunkReader{chunks: cs, eofWithLast: len(f) >= 3 && fieldWith(f, "eof=") == "1"}
 		var addr string
 		var err error
 		framedProto := false
@@ -390,7 +423,7 @@ func (frameComp) run(op string) vh.Result {
 		cs := vh.ParseChunks(f[1])
 		total := totalLen(cs)
 		flat := bytes.Join(cs, nil)
-		cr := &chunkReader{chunks: cs}
+		cr := &chunkReader{chunks: cs, eofWithLast: len(f) >= 3 && fieldWith(f, "eof=") == "1"}
 		var ok bool
 		var msg string
 		var err error
